@@ -3971,3 +3971,23 @@ def r14_20(ctx, rule):
                      'the renderer prints %r of an output without asking config.%s: nbshow --ignore-%s and inserted/deleted outputs in nbdiff still show it' % (field, opt, opt), fn)
     if n == 0:
         ctx.inst(rule, fid, 'the differ table files no output field under a category', True, 'nothing to agree on (R14.1 judges the table)', fn, nontrivial=False)
+
+
+@extra('C16', 'R16.22', 'the renderers assert nothing about what an external tool printed: its output contains the user\'s text (in word-diff mode without any prefix), so a test '
+       'of that output can fail for valid notebooks', 2)
+def r16_22(ctx, rule):
+    from ..util import local_defs, depends_on
+    repo = ctx.repo
+    for name in ('external_diff_render', 'external_merge_render'):
+        fid = 'nbdime.prettyprint:' + name
+        fn = repo.func(fid)
+        defs = local_defs(fn)
+        tool_out = lambda x: isinstance(x, ast.Call) and isinstance(x.func, ast.Attribute) and x.func.attr in ('communicate', 'check_output', 'read') or \
+            (isinstance(x, ast.Call) and (dotted(x.func) or '').endswith('check_output'))
+        asserts = [a for a in walk_no_nested(fn) if isinstance(a, ast.Assert)]
+        bad = [a for a in asserts if depends_on(fn, a.test, tool_out, defs) is not None]
+        ctx.inst(rule, fid, '%d assertion(s), %d on the tool\'s output' % (len(asserts), len(bad)), not bad,
+                 'only the command line is asserted' if not bad else
+                 '`%s` tests what the external tool printed: with --color-words git prints context lines without a prefix, so three lines of cell text reading '
+                 '"\\\\ No newline at end of file" (a stream output holding a git diff) make the count exceed 2 and the renderer dies with AssertionError' % repo.norm(bad[0])[:80],
+                 bad[0] if bad else fn)
